@@ -87,8 +87,6 @@ def evidence_head_fact(text, desc):
 
 
 def classify(text, key, desc):
-    if aux_name_clash(text, desc):
-        return "to_prolog:aux-name-clash"
     if evidence_head_fact(text, desc):
         return "to_prolog:propagate-evidence:ad-head-printed-as-fact"
     return None
@@ -149,6 +147,12 @@ def work(item):
                                  classify=lambda t, k, d=d: classify(t, k, d))
         except Exception:
             raise
+    # same skeleton with every parameter collapsed to one numeric constant: identical ground clauses
+    ctext = gen.program_text(gen.collapse_params(prog))
+    if ctext != text:
+        for d in ({"export": True, "break_cycles": False}, {"export": True, "break_cycles": True}):
+            diffcheck.diff_check(ctext, make_cfg({}), make_cfg(d), {}, d, groups=[], name=name + "[collapsed]", st=st,
+                                 bool_route=False, classify=lambda t, k, d=d: classify(t, k, d))
     if st["samples"]:
         try:
             st["samples"][0]["exported"] = export(text, False, {})
